@@ -71,8 +71,16 @@ def run(ctx, out):
         size = 100 if bpf == 1 else bs * (bpf - 1) + 50
         make_tree(os.path.join(d, "src"), n, size)
         argv = [ctx.bins["xcp"], "-r", "--driver", "parblock", "-w", str(w), "--block-size", str(bs), "src", "dst"]
-        rules = [("holdq", 20000, 500, "copy_file_range", k, "*") for k in range(1, w + 1)]
-        r = xcp.run_supervised(sup, argv, d, d, rules=rules, tag="h", timeout_ms=120000, nofile=1024)
+        expect_fds = 2 * min(n, Q + w + 1) if bpf == 1 else None
+        for quiet in (500, 3000):
+            # the workers are released when nothing has entered a system call for `quiet` ms; on a loaded machine the
+            # dispatcher itself may pause that long, so a run that falls short of the model is repeated with a longer pause
+            shutil.rmtree(os.path.join(d, "dst"), ignore_errors=True)
+            rules = [("holdq", 30000, quiet, "copy_file_range", k, "*") for k in range(1, w + 1)]
+            r = xcp.run_supervised(sup, argv, d, d, rules=rules, tag="h", timeout_ms=120000, nofile=1024)
+            if expect_fds is None or r.exit != 0 or "quiet" not in r.meta or peak_open(r, d, at=r.meta["quiet"]) >= expect_fds:
+                break
+            out.count("held_runs_repeated_with_longer_quiet")
         rep = dict(files=n, blocks_per_file=bpf, workers=w, argv=argv[1:])
         out.case(("held", n, bpf, w), True)
         out.count("held_runs")
